@@ -773,6 +773,7 @@ Fixpoint nmh (p : planner) : bool :=
   | PMainFinalizer m _ _ => nmh m
   | PLraP _ _ _ _ | PUnwrapFnP _ _ _ | PByWithoutP _ _ _ _ | PAggOpP _ _ _ | PComparisonP _ _ _ | PTopKP _ _ _
   | PQuantileP _ _ _ | PStepFixP _ _ | PMetrics15 _ _ => false
+  | PFingerprintFilter _ (PMetrics15 _ _) => false
   | _ => true
   end.
 Definition shape (rows : list mrow) := map (fun r => (r_fp r, r_ts r, r_labels r, r_line r)) rows.
@@ -806,6 +807,7 @@ Section CHAIN.
   Lemma sem_nmh c base : forall p, nmh p = true -> exists rows0, sem p c base = Some rows0 /\ shape rows0 = shape base.
   Proof.
     induction p; cbn [nmh LogqlMetricSem.sem]; intros H; try discriminate; try (exists base; split; reflexivity).
+    - (* PFingerprintFilter: not over the shortcut planner *) destruct p2; try discriminate; exists base; split; reflexivity.
     - (* PLabelsJoin *) now apply IHp1.
     - (* PMainFinalizer *) now apply IHp.
     - (* PUnwrapP *) destruct (IHp H) as [rows0 [E S]]. rewrite E. eexists. split; [reflexivity|].
@@ -1163,6 +1165,75 @@ Section CHAIN.
     destruct (cmp_rows_inv (tk_cmp t) _ Hc2 Hn2) as [Hc3 Hn3].
     rewrite cmp_rows_ref. unfold post_step. symmetry. now apply step_stage.
   Qed.
+  (* --- scripts answered from the roll-up table --- *)
+  Lemma last_st_in (l : list stage) st : last_st l = Some st -> In st l.
+  Proof.
+    induction l as [|a r IH]; [discriminate|]. cbn [last_st]. destruct r as [|b r'].
+    - intros E. inversion E. now left.
+    - intros E. right. now apply IH.
+  Qed.
+  Lemma m15_no_unwrap l : forallb m15_stage_ok (sel_pipeline (lra_sel l)) = true -> unwrap_label (lra_sel l) = None.
+  Proof.
+    intros H. rewrite unwrap_label_last. destruct (last_st (sel_pipeline (lra_sel l))) as [st|] eqn:E; [|reflexivity].
+    apply last_st_in in E. rewrite forallb_forall in H. apply H in E. destruct st; try reflexivity. discriminate.
+  Qed.
+  Lemma whole_ms_15 k : whole_ms (15000000000 * k).
+  Proof. unfold whole_ms. replace (15000000000 * k) with (15000 * k * 1000000) by lia. apply Z.mod_mul. lia. Qed.
+
+  Lemma m15_lra_correct c base fpp l :
+    (match lra_f l with FRate | FCountOverTime => true | _ => false end) = true ->
+    (exists k, 0 < k /\ lra_dur_ns l = 15000000000 * k) ->
+    forallb m15_stage_ok (sel_pipeline (lra_sel l)) = true ->
+    consistent base -> nonneg base ->
+    exists rows, sem (m15_lra fpp l) c base = Some rows /\
+                 ref_lra to_float varpop stddevpop l (map entry_of base) = Some (map strip rows) /\ consistent rows /\ nonneg rows.
+  Proof.
+    intros Hf [k [Hk Hd]] Hst Hc Hn. unfold m15_lra, ref_lra. rewrite sem_cmp_opt, (m15_no_unwrap l Hst).
+    cbn [LogqlMetricSem.sem].
+    assert (Hv : exists v, m15_val_of (lra_f l) (lra_dur_ns l) = Some v /\ lra_val_of (lra_f l) (lra_dur_ns l) = Some (m15_as_lra v)).
+    { destruct (lra_f l); try discriminate; eexists; split; reflexivity. }
+    destruct Hv as [v [Ev El]]. rewrite Ev. cbn [option_map]. unfold sem_m15_rows.
+    rewrite Hd in *. rewrite (shortcut_value_correct v k base Hn Hk).
+    assert (Hpos : 0 < 15000000000 * k) by lia.
+    rewrite (lra_stage _ _ _ base Hc Hn Hpos (whole_ms_15 k) El), cmp_rows_ref.
+    destruct (sem_lra_inv fp fp_inj (m15_as_lra v) _ base Hc Hn Hpos) as [Hc1 Hn1].
+    destruct (cmp_rows_inv (lra_cmp l) _ Hc1 Hn1). eauto.
+  Qed.
+
+  (* a script answered from metrics_15s: with the lines of the selected streams as base rows, the shortcut plan computes
+     the reference too (the stages it does not plan keep every line; the label filters select the streams) *)
+  Theorem shortcut_metric_correct c base s fin p :
+    analyze_m15 s = true -> plan_metric s fin = Some p ->
+    (match s with SLra _ | SAgg _ => True | _ => False end) ->
+    0 < c_step_ns c -> consistent base -> nonneg base ->
+    option_map (map strip) (sem p c base) = mref s c (map entry_of base).
+  Proof.
+    intros Ha Hp Hk Hs Hc Hn. pose proof Ha as Ha'. unfold analyze_m15 in Ha'.
+    pose proof (analyze_m15_whole_slots s Ha) as Hw.
+    unfold plan_metric in Hp. rewrite Ha in Hp. cbv zeta in Hp.
+    destruct s as [sel|l|a|t|q|]; try contradiction; cbn [first_lra stream_selector plan_m15 bind] in *.
+    - (* SLra *)
+      rewrite !andb_true_iff in Ha'. destruct Ha' as [[[Hf _] _] Hst].
+      inversion Hp; subst p; clear Hp. cbn [andb negb].
+      rewrite (sem_tail c base true), metric_ref_inner. cbn [inner_ref get_duration].
+      apply finish_step; [exact Hs|].
+      destruct (m15_lra_correct c base (plan_ts (sel_matchers (lra_sel l)) (sel_pipeline (lra_sel l)) (simple_ops (sel_pipeline (lra_sel l)))) l Hf Hw Hst Hc Hn)
+        as [rows [-> H]]. exact H.
+    - (* SAgg *)
+      rewrite !andb_true_iff in Ha'. destruct Ha' as [[[Hf _] _] Hst].
+      unfold m15_agg in Hp. cbn [bind] in Hp. inversion Hp; subst p; clear Hp.
+      match goal with |- context [PMainFinalizer (if ?b then _ else _) true fin] => rewrite (sem_tail c base b) end.
+      rewrite metric_ref_inner. cbn [inner_ref get_duration]. unfold ref_aggop.
+      apply finish_step; [exact Hs|].
+      rewrite sem_cmp_opt. cbn [LogqlMetricSem.sem]. rewrite sem_bw_opt.
+      destruct (m15_lra_correct c base (plan_ts (sel_matchers (lra_sel (agg_lra a))) (sel_pipeline (lra_sel (agg_lra a))) (simple_ops (sel_pipeline (lra_sel (agg_lra a)))))
+                  (agg_lra a) Hf Hw Hst Hc Hn) as [rows [-> [-> [Hc1 Hn1]]]].
+      cbn [option_map].
+      destruct (maybe_bw_inv fp fp_inj (grouping (agg_prefix a) (agg_suffix a)) rows Hc1 Hn1) as [Hc2 Hn2].
+      rewrite (agg_stage_ref fp varpop stddevpop (agg_f a) _ rows Hc2), cmp_rows_ref.
+      destruct (sem_agg_inv fp varpop stddevpop fp_inj (agg_f a) _ Hc2 Hn2) as [Hc3 Hn3].
+      destruct (cmp_rows_inv (agg_cmp a) _ Hc3 Hn3). auto.
+  Qed.
 End CHAIN.
 
 (* hypotheses of metric_correct are met by a concrete query: sum by (a) (rate({a="b"} | json x="x" [5s]) > 1), step 15 s,
@@ -1263,3 +1334,15 @@ Section POSTPROOFS.
   Proof. unfold fix_period. intros Hb He. eapply fix_run_grid; [|exact Hb|exact He]. exact I. Qed.
 End POSTPROOFS.
 
+
+(* hypotheses of shortcut_metric_correct are met: sum by (a) (rate({a="b"} | level="x" |= "" [1m])) *)
+Definition ex_short : script :=
+  SAgg {| agg_f := ASum; agg_prefix := Some {| bw_by := true; bw_labels := ["a"]%string |};
+          agg_lra := {| lra_f := FRate; lra_prefix := None;
+                        lra_sel := {| sel_matchers := [{| m_name := "a"; m_op := MEq; m_val := "b" |}]%string;
+                                      sel_pipeline := [PLabelFilter (LF (HSimple {| slf_label := "level"; slf_fn := LEq; slf_str := Some "x"; slf_num := None |}) None None);
+                                                       PLineFilter LFContains "" None]%string |};
+                        lra_dur_ns := 60000000000; lra_suffix := None; lra_cmp := None |};
+          agg_suffix := None; agg_cmp := None |}.
+Example shortcut_metric_hyp : analyze_m15 ex_short = true /\ exists p, plan_metric ex_short true = Some p.
+Proof. split; [reflexivity|eexists; reflexivity]. Qed.
